@@ -562,13 +562,16 @@ class ResultTypesGenerator:
             )
 
     def _get_all_related_fragments(self) -> Set[str]:
-        fragments_names: Set[str] = self._fragments_used_as_mixins.copy()
-        for fragment_name in self._fragments_used_as_mixins:
+        fragments_names: Set[str] = self._fragments_used_as_mixins.union(
+            self._unpacked_fragments
+        )
+        # printed fragments can spread fragments which were not needed for classes
+        for fragment_name in sorted(fragments_names):
             fragment_def = self.fragments_definitions[fragment_name]
             fragments_names = fragments_names.union(
                 self._get_fragments_names(fragment_def.selection_set)
             )
-        return fragments_names.union(self._unpacked_fragments)
+        return fragments_names
 
     def _sort_fragments_bases(self, fragments: Set[str]) -> List[str]:
         """Sort alphabetically, but fragment spreading another one goes first (MRO)."""
